@@ -3518,3 +3518,108 @@ def rule_none_argument_is_nonetype(model: Model, rule_id: str = 'C17-R20') -> Ru
                "Box[None].from_data({'x': None}) raises TypeError (Unsupported special type 'None') where Optional[T] and typing's own "
                "generics accept None as a type argument")
     return r
+
+
+def rule_numpy_free_twin(model: Model, rule_id: str = 'C04-R11') -> RuleResult:
+    """numpy is an optional dependency: ``pane/addons/numpy.py`` defines stand-ins in its ``except ImportError`` branch.  That branch
+    runs at import time, so (a) every name evaluated while its ``def`` / ``class`` statements execute (annotations, defaults, bases,
+    decorators - the module has no ``from __future__ import annotations``) has to be bound there, and (b) a function defined in both
+    branches takes the same parameters (it is called by the same callers)."""
+    r = RuleResult(rule_id, "the numpy-free branch of the add-on binds every name it evaluates at import time and mirrors the signatures of the real one", floor=2)
+    mod = model.module('pane.addons.numpy')
+    tree = mod.tree
+    future = any(isinstance(st, ast.ImportFrom) and st.module == '__future__' and any(a.name == 'annotations' for a in st.names) for st in tree.body)
+    trys = [st for st in tree.body if isinstance(st, ast.Try) and any('ImportError' in unparse(h.type) for h in st.handlers if h.type is not None)]
+    if not trys:
+        raise AnalysisError('pane/addons/numpy.py: the try / except ImportError split was not found')
+    tr = trys[0]
+    handler = next(h for h in tr.handlers if h.type is not None and 'ImportError' in unparse(h.type))
+
+    def defs(stmts: t.Sequence[ast.stmt]) -> t.Dict[str, ast.FunctionDef]:
+        out: t.Dict[str, ast.FunctionDef] = {}
+        for st in stmts:
+            for x in ast.walk(st):
+                if isinstance(x, ast.FunctionDef) and x.name not in out:
+                    out[x.name] = x
+        return out
+    real, twin = defs(tr.body), defs(handler.body)
+    # (b) same parameters
+    for nm in sorted(set(real) & set(twin)):
+        r.instances += 1
+        pa = [a.arg for a in real[nm].args.posonlyargs + real[nm].args.args + real[nm].args.kwonlyargs]
+        pb = [a.arg for a in twin[nm].args.posonlyargs + twin[nm].args.args + twin[nm].args.kwonlyargs]
+        r.sample({nm: {'with numpy': pa, 'without': pb}})
+        if pa == pb:
+            r.ok()
+        else:
+            r.fail(f'pane.addons.numpy.{nm}', f"parameters {pb} without numpy, {pa} with it", f"{mod.relpath}:{twin[nm].lineno}",
+                   "callers pass the keywords of the real function: without numpy the stand-in raises TypeError (unexpected keyword argument) "
+                   "for every type that reaches the registered handlers")
+    # (a) names evaluated at definition time in the fallback branch
+    r.instances += 1
+    bound: t.Set[str] = set(dir(__builtins__)) if not isinstance(__builtins__, dict) else set(__builtins__)
+    for st in tree.body:
+        if st is tr:
+            break
+        for x in ast.walk(st):
+            if isinstance(x, (ast.Import, ast.ImportFrom)):
+                bound |= {(a.asname or a.name).split('.')[0] for a in x.names}
+            elif isinstance(x, (ast.FunctionDef, ast.ClassDef)):
+                bound.add(x.name)
+            elif isinstance(x, ast.Name) and isinstance(x.ctx, ast.Store):
+                bound.add(x.id)
+    unbound: t.List[t.Tuple[str, int]] = []
+
+    def run(stmts: t.Sequence[ast.stmt], static_only: bool) -> None:
+        for st in stmts:
+            if isinstance(st, ast.If):
+                test = unparse(st.test)
+                if re.fullmatch(r'(t\.|typing\.)?TYPE_CHECKING', test):
+                    run(st.orelse, static_only)
+                    continue
+                if re.fullmatch(r'not (t\.|typing\.)?TYPE_CHECKING', test):
+                    run(st.body, static_only)
+                    continue
+                run(st.body, static_only)
+                run(st.orelse, static_only)
+                continue
+            evaluated: t.List[ast.AST] = []
+            if isinstance(st, ast.FunctionDef):
+                a = st.args
+                evaluated += list(st.decorator_list) + [d for d in a.defaults + a.kw_defaults if d is not None]
+                if not future:
+                    evaluated += [x.annotation for x in a.posonlyargs + a.args + a.kwonlyargs if x.annotation is not None]
+                    if st.returns is not None:
+                        evaluated.append(st.returns)
+                for e in evaluated:
+                    for nm in ast.walk(e):
+                        if isinstance(nm, ast.Name) and isinstance(nm.ctx, ast.Load) and nm.id not in bound:
+                            unbound.append((nm.id, nm.lineno))
+                bound.add(st.name)
+            elif isinstance(st, ast.ClassDef):
+                for e in list(st.bases) + list(st.decorator_list) + [k.value for k in st.keywords]:
+                    for nm in ast.walk(e):
+                        if isinstance(nm, ast.Name) and isinstance(nm.ctx, ast.Load) and nm.id not in bound:
+                            unbound.append((nm.id, nm.lineno))
+                bound.add(st.name)
+            else:
+                for x in ast.walk(st):
+                    if isinstance(x, (ast.Import, ast.ImportFrom)):
+                        bound.update((a.asname or a.name).split('.')[0] for a in x.names)
+                loads = [x for x in ast.walk(st) if isinstance(x, ast.Name) and isinstance(x.ctx, ast.Load)]
+                for nm in loads:
+                    if nm.id not in bound:
+                        unbound.append((nm.id, nm.lineno))
+                for x in ast.walk(st):
+                    if isinstance(x, ast.Name) and isinstance(x.ctx, ast.Store):
+                        bound.add(x.id)
+    run(handler.body, False)
+    r.sample({'names evaluated at import time without a binding (numpy absent)': unbound})
+    if not unbound:
+        r.ok()
+    else:
+        nm, ln = unbound[0]
+        r.fail('pane.addons.numpy', f"`{nm}` is evaluated at import time but only bound when numpy is installed (or under TYPE_CHECKING)", f"{mod.relpath}:{ln}",
+               "without numpy - an optional dependency - `import pane` raises NameError: nothing of the library works, and the library's own "
+               "numpy-free fallbacks (broadcast_shapes) can never run")
+    return r
